@@ -2,6 +2,8 @@ package rules
 
 import (
 	"go/token"
+	"go/types"
+	"reflect"
 	"sort"
 	"strings"
 
@@ -18,13 +20,15 @@ func C03(c *Ctx) {
 	r := c.R
 	r.Explain = "Decided statically: (R1) requests.MessageToSign values are constructed only by TasksToMessages/ReconstructBakedMessage, ReconstructBakedMessage is called only by TasksToMessages, the three consumers (airgapped signer, node store, node reconstruction) obtain their message list from it, and no other function reads SigningTask.Payload/RangeStart/RangeEnd; " +
 		"(R2) the bytes at each consumer are identity flows of MessageToSign.Payload of the same element whose id/file they carry; in the expansion Payload is the task's payload unchanged or the whole message built for position i; the proposal's tasks are stored as json.Marshal(request.SigningTasks) and handed on unmodified; the export takes the stored payload; " +
-		"(R3) the expansion is deterministic: no map iteration, clock, randomness or uuid in TasksToMessages/ReconstructBakedMessage and their module callees, and the baked loop runs i = RangeStart; i < RangeEnd; (R4) the hot node cannot alter the request (C15/R2: Operation.Equal binds Payload). " +
+		"(R3) the expansion is deterministic: no map iteration, clock, randomness or uuid in TasksToMessages/ReconstructBakedMessage and their module callees, and the baked loop runs i = RangeStart; i < RangeEnd; (R4) the hot node cannot alter the request (C15/R2: Operation.Equal binds Payload); (R5) the task types re-encode exactly (no omitempty, dropped field or one-sided marshaler), so the list the node stores from the board and the list signer and reconstruction decode from the FSM's re-encoding are the same, and the signer returns the tbls.Sign result of this call, never a remembered signature. " +
 		"NOT decided: byte equality as an executed fact for all inputs, JSON fidelity of arbitrary file names (encoding/json), the baked roots themselves (C17)."
 	r.Trusted = []string{"encoding/json", "go/ssa value provenance"}
 	r.Rule("C03/R1", "single expansion: constructors, callers and raw-task readers", 4)
 	r.Rule("C03/R2", "identity of bytes at signer, reconstruction, store and export", 10)
 	r.Rule("C03/R3", "deterministic expansion", 2)
 	r.Rule("C03/R4", "the submitted result must carry the unchanged request payload", 3)
+	r.Rule("C03/R5", "the proposal's tasks re-encode exactly: store, signer and reconstruction decode the same list (no omitempty/dropped field, no one-sided marshaler)", 3)
+	c03Reencode(c)
 
 	// R1 constructors of MessageToSign (any store into its fields)
 	ctor := map[string]bool{}
@@ -104,6 +108,34 @@ func C03(c *Ctx) {
 		{"C03/R2", "airgapped.signing-handler:tasks-source", [3]string{"airgapped", "Machine", "handleStateSigningAwaitPartialSigns"}, "fsm/types/requests.TasksToMessages", 0, `^json\(json\(o\.Payload\)\.SrcPayload\)$`, "the signer expands the tasks carried by the operation", "other tasks"},
 		{"C03/R2", "node.processSignatureProposal:tasks-source", [3]string{pkgNode, "BaseNodeService", "processSignatureProposal"}, "fsm/types/requests.TasksToMessages", 0, `^json\(message\.Data\)\.SigningTasks$`, "the node expands the tasks of the board proposal", "other tasks"},
 	})
+	// the signer returns what it computed for these bytes, nothing remembered from elsewhere
+	if fn := c.Fn("C03/R2", "airgapped", "Machine", "createPartialSign"); fn != nil {
+		bad := ""
+		n := 0
+		for _, ret := range ssax.Returns(fn) {
+			if len(ret.Results) != 2 || ret.Block() == fn.Recover {
+				continue
+			}
+			for _, lf := range ssax.Leaves(ret.Results[0], ret) {
+				if ssax.IsNilConst(lf.V) {
+					continue // error return
+				}
+				n++
+				ex, ok := lf.V.(*ssa.Extract)
+				if ok {
+					if call, isCall := ex.Tuple.(*ssa.Call); isCall && ex.Index == 0 && ssax.FuncID(ssax.CalleeObj(call)) == "github.com/corestario/kyber/sign/tbls.Sign" {
+						continue
+					}
+				}
+				if call, isCall := lf.V.(*ssa.Call); isCall && ssax.FuncID(ssax.CalleeObj(call)) == "github.com/corestario/kyber/sign/tbls.Sign" {
+					continue
+				}
+				bad = npath(lf.V)
+			}
+		}
+		r.Check(bad == "" && n > 0, "C03/R2", "airgapped.createPartialSign:result", "the partial signature returned is the one just computed by tbls.Sign over the given bytes", c.Pos(fn.Pos()),
+			"a success return yields "+bad+" instead of the result of tbls.Sign: a signature made for other bytes could be returned for this message")
+	}
 	// signer's unmarshal source
 	if fn := c.Fn("C03/R2", "airgapped", "Machine", "handleStateSigningAwaitPartialSigns"); fn != nil {
 		ok := false
@@ -220,4 +252,53 @@ func nondeterminism(c *Ctx, root *ssa.Function) []string {
 	walk(root)
 	sort.Strings(out)
 	return out
+}
+
+// c03Reencode — R5. The node stores what it decodes from the board message, while the signer and the reconstruction decode
+// the FSM's re-encoding of the same tasks (SrcPayload = json.Marshal(request.SigningTasks)). Both decodings are the same
+// list only if encoding the task type loses nothing: in particular `omitempty` would turn an explicit empty payload into
+// an absent one, and TasksToMessages expands a task without payload as a baked range.
+func c03Reencode(c *Ctx) {
+	r := c.R
+	for _, name := range []string{"SigningTask", "MessageToSign", "SigningBatchProposalStartRequest"} {
+		t := c.lookupType("C03/R5", pkgRequests, name)
+		if t == nil {
+			continue
+		}
+		var issues []jsonIssue
+		var visited []string
+		jsonWalk(t, name, map[string]bool{}, &issues, &visited)
+		// strict: omitempty anywhere in these types
+		var walk func(t types.Type, path string, seen map[string]bool)
+		walk = func(t types.Type, path string, seen map[string]bool) {
+			if seen[t.String()] {
+				return
+			}
+			seen[t.String()] = true
+			switch u := t.Underlying().(type) {
+			case *types.Pointer:
+				walk(u.Elem(), path, seen)
+			case *types.Slice:
+				walk(u.Elem(), path+"[]", seen)
+			case *types.Struct:
+				if n, ok := t.(*types.Named); ok && n.Obj().Pkg() != nil && !strings.HasPrefix(n.Obj().Pkg().Path(), load.Module) {
+					return // time.Time etc.
+				}
+				for i := 0; i < u.NumFields(); i++ {
+					tag := reflect.StructTag(u.Tag(i)).Get("json")
+					if strings.Contains(tag, "omitempty") {
+						issues = append(issues, jsonIssue{path + "." + u.Field(i).Name(), "omitempty drops an empty value on re-encoding: an explicit empty " + u.Field(i).Name() + " comes back as absent"})
+					}
+					walk(u.Field(i).Type(), path+"."+u.Field(i).Name(), seen)
+				}
+			}
+		}
+		walk(t, name, map[string]bool{})
+		var ds []string
+		for _, is := range issues {
+			ds = append(ds, is.Path+": "+is.Why)
+		}
+		sort.Strings(ds)
+		r.Check(len(issues) == 0, "C03/R5", "requests."+name+":re-encodes-exactly", "encoding then decoding a "+name+" yields the same value", "", strings.Join(ds, "; "))
+	}
 }
